@@ -352,10 +352,11 @@ class Grammar:
             assert weights[weight] >= 0 and weights[weight] <= 1
 
         starting_symbol = self.starting_symbol
-        starting_symbol.__dict__["__gengy__"]["weight"] = weights[starting_symbol]
+        get_gengy(starting_symbol)["weight"] = weights[starting_symbol]
         nodes = list()
         for node in self.considered_subtypes:
-            node.__dict__["__gengy__"]["weight"] = weights[node]
+            if node in weights:
+                get_gengy(node)["weight"] = weights[node]
             nodes.append(node)
         self.__init__(starting_symbol, nodes, self.expansion_depthing)
         self.register_type(starting_symbol)
